@@ -3,15 +3,16 @@
 # Confirms a seeded change (patch applies to HEAD, demo passes without / fails with it, test suite still 247 passed),
 # stores it as /verif/seeded/<id>/ and runs the named checks against it.
 set -u
+VROOT="$(cd "$(dirname "$0")/.." && pwd)"
 SD="$1"; ID="$2"; shift 2
-DEST=/verif/seeded/$ID
+DEST="$VROOT"/seeded/$ID
 mkdir -p "$DEST"
 cp "$SD/SEED/patch.diff" "$SD/SEED/demo.py" "$SD/SEED/meta.json" "$DEST/" || exit 3
 PROP=$(python3 -c "import json;print(json.load(open('$DEST/meta.json'))['property'])")
 CHECKS="${*:-$PROP}"
 WT=$(mktemp -d /tmp/sv_XXXXXX); rmdir "$WT"
 git -C /repo worktree add -q "$WT" HEAD || exit 3
-export VERIF_LEAN_DIR="${WT}_lean"; rsync -a /verif/lean/ "$VERIF_LEAN_DIR"/
+export VERIF_LEAN_DIR="${WT}_lean"; rsync -a "$VROOT"/lean/ "$VERIF_LEAN_DIR"/
 R="$DEST/confirm.log"; : > "$R"
 ( cd "$WT" && PYTHONPATH="$WT/src" timeout 600 /venv/bin/python "$DEST/demo.py" ) >> "$R" 2>&1; echo "demo on unchanged tree: exit $?" | tee -a "$R"
 if ! git -C "$WT" apply "$DEST/patch.diff"; then echo "PATCH DOES NOT APPLY" | tee -a "$R"; git -C /repo worktree remove --force "$WT"; exit 3; fi
@@ -20,7 +21,7 @@ if [ "${SEED_SUITE:-1}" = "1" ]; then
   ( cd "$WT" && PYTHONPATH="$WT/src" /venv/bin/python -m pytest -q -p no:cacheprovider --timeout=900 test 2>&1 | tail -1 ) | tee -a "$R"
 fi
 for C in $CHECKS; do
-  VERIF_REPO="$WT" /verif/check "$C" quick > "$DEST/check_$C.log" 2>&1; rc=$?
+  VERIF_REPO="$WT" "$VROOT"/check "$C" quick > "$DEST/check_$C.log" 2>&1; rc=$?
   echo "check $C on changed tree: exit $rc :: $(grep -v '^KNOWN-FINDING' "$DEST/check_$C.log" | grep -E 'VIOLATION|quick:' | tr '\n' ' ' | cut -c1-300)" | tee -a "$R"
 done
 git -C /repo worktree remove --force "$WT"; rm -rf "$VERIF_LEAN_DIR"
